@@ -83,6 +83,11 @@ def normalise(text):
             out.append(f"{td.group(1)}{td.group(2)} -> (ret: {td.group(3)})")
             out.append(td.group(1) + ";")
             continue
+        wh = re.match(r"^(\s*(?:pub(?:\([a-z]+\))? )?(?:unsafe )?fn\b.*\)) -> (.+)$", line)
+        if wh and nxt == "where" and not wh.group(2).startswith("(ret:"):
+            # a signature followed by a where clause: `fn f(..) -> T` / `where` ..
+            out.append(f"{wh.group(1)} -> (ret: {wh.group(2)})")
+            continue
         m = HEAD_RE.match(line)
         if m:
             head = m.group(1) + m.group(2)
@@ -478,7 +483,7 @@ def enclosing_fn(lines, i):
                     mm = MOD_RE.match(lj)
                     if mm:
                         return f"{mm.group(1)}::{name}"
-                    if indent_of(lj) == 0 and not lj.strip().startswith(("//", "#", ")", "}")):
+                    if indent_of(lj) == 0 and not lj.strip().startswith(("//", "#", ")", "}")) and lj.strip() not in ("{", "where"):
                         break
                 j -= 1
             return name
